@@ -109,6 +109,16 @@ def main(v: Verdict) -> None:
     shutil.copytree(packs[0][0], gp / "wrap" / "inner" / packs[0][0].name)
     jobs.append({"src": gp, "timeout": 600, "opts": Opts()})
     meta.append((gp.name, "source-is-ancestor-of-package"))
+    # a source directory that holds two top-level packages (the module paths do not start with the directory's name); one of them
+    # uses a NewType and a conditional class of its own across modules
+    two = fresh_dir("c10two") / "holder"
+    for rel, text in {"alphapk/__init__.py": "", "alphapk/ids_mod.py": "from typing import NewType\n\nUserId = NewType(\"UserId\", int)\n\n\ndef make_id() -> int:\n    ...\n",
+                      "alphapk/user_mod.py": "from alphapk.ids_mod import UserId\n\n\ndef user_name(u: UserId) -> UserId:\n    ...\n",
+                      "betapk/__init__.py": "", "betapk/bmod.py": "def beta_fn() -> int:\n    ...\n"}.items():
+        (two / rel).parent.mkdir(parents=True, exist_ok=True)
+        (two / rel).write_text(text)
+    jobs.append({"src": two, "timeout": 600, "opts": Opts()})
+    meta.append((two.name, "source-holds-two-packages"))
     dotted = fresh_dir("c10dot") / "rel-1.0"       # a source directory whose name contains a dot
     shutil.copytree(packs[0][0], dotted / packs[0][0].name)
     jobs.append({"src": dotted, "timeout": 600, "opts": Opts()})
